@@ -9,7 +9,8 @@
      max_debit o    the deposit a bind/update/enable adds, the amount a transfer sends, else 0. *)
 From Coq Require Import List ZArith Bool.
 From SVC Require Import Base.AMap Base.Res Base.Dec Model.Types Model.Pricing
-  Model.Handlers Model.EndBlock Model.Step Proofs.Inv Proofs.StepSpecs_auth.
+  Model.Handlers Model.EndBlock Model.Step Proofs.Inv Proofs.StepSpecs_auth
+  Proofs.TraceLemmas Proofs.TraceSettle Proofs.GapC05.
 Import ListNotations.
 Open Scope Z_scope.
 
@@ -201,3 +202,37 @@ Theorem C05_step_debits : forall cfg s o a,
                \/ (In (height s, c) (expq s) /\ c_rep rc = true /\ c_freq rc = c_timeout rc))).
 Proof. exact StepSpecs_auth.C05_step_debits. Qed.
 Print Assumptions C05_step_debits.
+
+(* ------------------------------------------------------------------ *)
+(* gap closing (audit C05, facet 8) *)
+
+(* EndBlock lowers the balance of an ordinary account only for a batch it ISSUES in that block:
+   if the balance of a fell, the events the block appended (the log is newest first) contain a
+   debit EvDebit c a amt with 0 < amt, immediately followed (newer) by the issue events evs of
+   one batch n of context c and by that batch's EvBatchStart, where every event of evs is an
+   EvIssue (c, n, height s, i) p a f -- a request of this batch, of this block, charged to a --
+   their fees sum to amt, and there is at least one.
+   issue_of c n h cons e := exists i p f, e = EvIssue (c, n, h, i) p cons f
+   issue_fees evs        := sum of the fees of the EvIssue events of evs *)
+Theorem C05_endblock_debit_issued : forall cfg s dt a,
+  wf_cfg cfg -> Reach cfg s -> wf_op s (OEndBlock dt) ->
+  bal (end_block cfg s dt) (User a) < bal s (User a) ->
+  exists c amt n evs d1 d2,
+    log (end_block cfg s dt)
+      = d1 ++ (EvBatchStart c n (height s) (len evs) :: evs ++ [EvDebit c a amt]) ++ d2 ++ log s
+    /\ Forall (issue_of c n (height s) a) evs /\ issue_fees evs = amt
+    /\ 0 < amt /\ 0 < len evs.
+Proof. exact GapC05.endblock_debit_issued. Qed.
+Print Assumptions C05_endblock_debit_issued.
+
+(* the same for one run of the new-batch handler, in any state satisfying the invariant *)
+Theorem C05_new_one_debit_issued : forall cfg s c a,
+  Inv cfg s -> In (height s, c) (newq s) ->
+  bal (new_one cfg s c) (User a) < bal s (User a) ->
+  exists rc amt n evs,
+    get c (ctxs s) = Some rc /\ c_cons rc = a /\ c_super rc = false
+    /\ log (new_one cfg s c) = EvBatchStart c n (height s) (len evs) :: evs ++ EvDebit c a amt :: log s
+    /\ Forall (issue_of c n (height s) a) evs /\ issue_fees evs = amt
+    /\ 0 < amt /\ 0 < len evs /\ n = c_counter rc + 1.
+Proof. exact GapC05.new_one_debit_shape. Qed.
+Print Assumptions C05_new_one_debit_issued.
